@@ -26,7 +26,6 @@ import (
 	"google.golang.org/grpc/connectivity"
 	"google.golang.org/grpc/resolver"
 	"google.golang.org/grpc/status"
-	"google.golang.org/protobuf/types/known/emptypb"
 	"reflect"
 	"unsafe"
 )
@@ -320,7 +319,7 @@ func TestVerifRaceGME(t *testing.T) {
 					}
 					func() {
 						defer func() { recover() }()
-						g.Invoke(ctx, "/v/Echo", &emptypb.Empty{}, &emptypb.Empty{})
+						vgCall(g, ctx, r.Intn(3) == 0)
 					}()
 					cancel()
 				}
